@@ -4,7 +4,7 @@ import json
 import os
 
 import hypothesis
-from hypothesis import settings, strategies as st
+from hypothesis import given, settings, strategies as st
 from hypothesis.stateful import RuleBasedStateMachine, initialize, rule, run_state_machine_as_test
 
 from vf import chainexec, crash, env
@@ -23,8 +23,11 @@ RULE = ("Hypothesis rule-based state machine over a wallet (fixed + freshly gene
         "out and not restored). Oracle: load(dump(w)) == w field by field; a hand-out while the model's unused list is non-"
         "empty returns a key that is in the wallet and not currently handed out -- also with a save/load in between; balance == "
         "reference sum over all wallet keys; after a crash at any point wallet.json loads and equals the complete previous or the "
-        "complete new wallet (absent only if there was no previous one). non-trivial = crash point strictly inside a save "
-        "(distinct by construction: (machine, save, step)); sequences with hand-outs on both sides of a save+load are counted.")
+        "complete new wallet (absent only if there was no previous one), also after the next start through open_or_init_wallet. non-trivial = crash point strictly inside a save "
+        "(distinct by construction: (machine, save, step)); sequences with hand-outs on both sides of a save+load are counted. "
+        "miner_sessions: 2-3 runs of the real MinerWatcher.__call__ (start-up, 0-2 finds, a full disk injected at a chosen find, "
+        "Ctrl-C and the shutdown path) over one wallet.json against a simulated node: no session may hand out a key that already "
+        "received the reward of a mined block.")
 ASSUMPTIONS = ["process-crash atomicity (the property's wording); power loss / fsync not modelled",
                "every chunk boundary is a superset of the prefixes a real buffered write can leave"]
 MIN_NONTRIVIAL = {"quick": 1000, "thorough": 20000}
@@ -164,6 +167,21 @@ class Exec:
                 return
             if got != new_fields and got != old_fields:
                 self.fail("crash", "crash-leaves-mixed-file", "crash at step %d of save_wallet: wallet.json is neither the previous nor the new wallet" % kstep)
+                return
+            # ... and the NEXT START (every script opens the wallet through open_or_init_wallet) still finds a complete wallet
+            from skepticoin.scripts.utils import open_or_init_wallet
+            try:
+                with env.quiet():
+                    w3 = open_or_init_wallet()
+                got3 = wallet_fields(w3)
+                with open("wallet.json") as fh:
+                    got4 = wallet_fields(W.Wallet.load(fh))
+            except Exception as e:
+                self.fail("crash", "restart-after-crash-finds-no-loadable-wallet", "crash at step %d of save_wallet, then the next start: opening the wallet raises %s" % (kstep, type(e).__name__))
+                return
+            self.flags["restarts_after_crash"] = self.flags.get("restarts_after_crash", 0) + 1
+            if (got3 != new_fields and got3 != old_fields) or (got4 != new_fields and got4 != old_fields):
+                self.fail("crash", "restart-after-crash-finds-mixed-wallet", "crash at step %d of save_wallet, then the next start: the wallet is neither the previous nor the new one" % kstep)
 
         snapshot = {n: open(n, "rb").read() for n in os.listdir(".") if os.path.isfile(n)}
 
@@ -272,11 +290,105 @@ def execute(case):
 
 
 def shards(tier):
-    return [{"kind": "sm", "i": i} for i in range(16)]
+    return [{"kind": "sm", "i": i} for i in range(15)] + [{"kind": "miner_sessions"}]
+
+
+def miner_sessions(case):
+    """Several runs of the real MinerWatcher.__call__ (start-up, finds, a full disk at a chosen find, Ctrl-C, the `finally`
+    path) over ONE wallet.json: a key that already received a mined reward must never be the key a later candidate pays to."""
+    import random
+    from vf import simnet, minersession, build as b
+    env.import_networking()
+    from skepticoin import mining as MI, consensus as C, wallet as W
+    fails = []
+    info = {}
+    hist = chainexec.gen_case(random.Random(case["hist_seed"]), chainexec.CFGS[0], 5, 0.0, ["C01"], p_tx=0.5, p_twin=0.0)
+    hist.pop("horizon", None)
+    r = chainexec.Run(hist, ("C15",))
+    r.execute()
+    d = env.fresh_subdir("c15ms")
+    cwd = os.getcwd()
+    os.chdir(d)
+    try:
+        simnet.install()
+        net = simnet.Net()
+        head = r.world.uni.nodes[r.cs.current_chain_hash]
+        simnet.CLOCK.now = head.blk.ts + 40
+        node = net.add("miner", "10.0.0.1", r.cs, 5, disk=simnet.RecDisk())
+        node.cm.started_at = -10 ** 9
+        wk = [KEYS[i] for i in (2, 3, 4, 5, 6, 7)]
+        W.save_wallet(W.Wallet({k.pub: k.priv for k in wk}, [k.pub for k in wk], {}))
+        known0 = set(node.cm.coinstate.block_by_hash.keys())
+        ever = []
+        for si, sess in enumerate(case["sessions"]):
+            paid = set()
+            for bid, skb in node.cm.coinstate.block_by_hash.items():
+                if bid not in known0:
+                    for (_v, pk) in b.from_sk_block(skb).txs[0].outs:
+                        paid.add(pk)
+            fault = tuple(sess["fault"]) if sess.get("fault") else None
+            s_ = minersession.Session(MI, C, simnet, node, sess["finds"], case["nonce0"] + 7919 * si, fault=fault).run()
+            info["sessions"] = info.get("sessions", 0) + 1
+            info["finds"] = info.get("finds", 0) + s_.found
+            if s_.fault_fired:
+                info["faults_fired"] = info.get("faults_fired", 0) + 1
+                if si + 1 < len(case["sessions"]):
+                    info["fault_then_another_session"] = 1
+            if s_.raised is not None:
+                fails.append({"kind": "session", "sig": "miner-session-raised:" + exc_sig(s_.raised) if isinstance(s_.raised, Exception) else "miner-session-exited",
+                              "msg": "session %d: MinerWatcher.__call__ ended with %r" % (si, s_.raised)})
+                break
+            if not s_.handed:
+                raise env.HarnessError("the session never reserved a key")
+            for j, pk in enumerate(s_.handed):
+                earlier_paid = set(paid)
+                # keys that received the reward of a block found earlier in THIS session
+                for bid in s_.heads[1:1 + j]:
+                    for (_v, q) in b.from_sk_block(node.cm.coinstate.block_by_hash[bid]).txs[0].outs:
+                        earlier_paid.add(q)
+                if pk in earlier_paid:
+                    fails.append({"kind": "key_reuse", "sig": "mining-key-handed-out-again-after-it-was-paid",
+                                  "msg": "session %d hands out, as hand-out #%d, a key that already received the reward of a block mined in %s (unused keys remained)" % (
+                                      si, j, "an earlier session" if pk in paid else "this session")})
+                    break
+            ever.append(list(s_.handed))
+            if fails:
+                break
+        return fails, info
+    finally:
+        os.chdir(cwd)
+
+
+def run_miner_sessions(res, tier, seed):
+    n = 12 if tier == "quick" else 300
+
+    @hypothesis.seed(env.subseed(seed, ID, "miner_sessions"))
+    @settings(max_examples=n, deadline=None, database=None, suppress_health_check=list(hypothesis.HealthCheck), phases=[hypothesis.Phase.generate])
+    @given(st.integers(0, 1000), st.integers(0, 1 << 30), st.integers(1, 2), st.sampled_from([None, None, "save_block", "flush_blocks"]), st.integers(0, 1),
+           st.integers(0, 1), st.sampled_from([None, "save_block"]))
+    def prop(hist_seed, nonce0, finds1, fault1, fidx1, finds2, fault2):
+        case = {"miner_sessions": True, "hist_seed": hist_seed, "nonce0": nonce0, "sessions": [
+            {"finds": finds1, "fault": [fault1, min(fidx1, finds1 - 1)] if fault1 else None},
+            {"finds": finds2, "fault": [fault2, 0] if fault2 and finds2 else None},
+            {"finds": 0, "fault": None}]}
+        fails, info = miner_sessions(case)
+        res.evaluations += info.get("sessions", 0)
+        for k, v in info.items():
+            res.count("miner_sessions:" + k, v)
+        if info.get("fault_then_another_session") and info.get("finds"):
+            res.nontrivial(env.digest(case))
+        for f in fails:
+            res.fail(f["kind"], f["sig"], f["msg"], case)
+
+    prop()
+    res.sample({"miner_sessions": "2-3 runs of the real MinerWatcher.__call__ over one wallet.json; a full disk at a chosen find; Ctrl-C; next session"})
+    return res
 
 
 def run(shard, tier, seed):
     res = Result()
+    if shard["kind"] == "miner_sessions":
+        return run_miner_sessions(res, tier, seed)
     Machine.res = res
     Machine.found = {}
     n = 25 if tier == "quick" else 500
@@ -294,4 +406,6 @@ def run(shard, tier, seed):
 
 
 def replay(case):
+    if case.get("miner_sessions"):
+        return miner_sessions(case)[0]
     return execute(case)
